@@ -17,7 +17,7 @@ func init() {
 		Patterns: []string{"./ring", "./kv/memberlist"},
 		Run:      runC15,
 		Explanation: "Decides structural necessary conditions of 'keys route to the next active partition; partition states follow legal edges': (R1) the transition table literal equals the property's edges and isPartitionStateChangeAllowed is a pure membership test on it; (R2) PartitionDesc.State is written only by UpdatePartitionState (only when the state-change lock is off), AddPartition (creation) and the merge; UpdatePartitionState is called only after the table check on the same values, or with the constant Active under 'pending ∧ enough old owners'; lifecyclers create partitions only as Pending; " +
-			"(R3) a partition is deleted only inside the CAS callback under: deletion enabled ∧ not the own partition ∧ inactive for the whole delay ∧ zero owners — all evaluated on the callback's ring; (R4) replication sets contain exactly the registered healthy owners and are built only when non-empty; (R5) a lifecycler registers/removes only its own owner id; (R6) ActivePartitionForKey returns ringPartitionIDs[i] only under ringPartitionActive[i] for the same i, and the two parallel slices are filled from the same partition id. Also: (R7) the owner count guarding deletion counts every owner of the partition (no clock, no other field); (R8) partition state and state-change lock merge as separate last-writer-wins registers (shared with C03.R1); (R9) the successor search runs over a token list sorted where it is built, from descriptors in any order (shared with C14.R5). NOT decided: the successor search over runtime tokens, timing boundaries of promotion/deletion.",
+			"(R3) a partition is deleted only inside the CAS callback under: deletion enabled ∧ not the own partition ∧ inactive for the whole delay ∧ zero owners — all evaluated on the callback's ring; (R4) replication sets contain exactly the registered healthy owners and are built only when non-empty; (R5) a lifecycler registers/removes only its own owner id; (R6) ActivePartitionForKey returns ringPartitionIDs[i] only under ringPartitionActive[i] for the same i, and the two parallel slices are filled from the same partition id. Also: (R7) the owner count guarding deletion counts every owner of the partition (no clock, no other field); (R8) partition state and state-change lock merge as separate last-writer-wins registers (shared with C03.R1); (R9) the successor search runs over a token list sorted where it is built, from descriptors in any order (shared with C14.R5). (R11) the token list and token→partition map a lookup reads are computed from the descriptor the PartitionRing stores (shared with C13.R5). NOT decided: the successor search over runtime tokens, timing boundaries of promotion/deletion.",
 	}
 }
 
